@@ -1,12 +1,14 @@
 #!/bin/bash
-# confirm every delivered seed that is not yet confirmed, sequentially
+# confirm every delivered seed that is not yet confirmed, sequentially.  usage: confirm_all.sh [prefix [tag]]
+PFX=${1:-seed}; TAG=${2:-}
 cd /verif
-for d in /tmp/seed-C*; do
-  P=$(basename $d | sed 's/seed-//')
+for d in /tmp/$PFX-C*; do
+  P=$(basename $d | sed "s/$PFX-//")
   for N in 1 2; do
     [ -f $d/out/patch$N.diff ] || continue
-    [ -d /verif/seeded/$P-$N ] && continue
-    [ -f build/probe/confirm_${P}_${N}.txt ] && grep -q "CONFIRMED" build/probe/confirm_${P}_${N}.txt && continue
-    tools/confirm_seed.sh $P $N > build/probe/confirm_${P}_${N}.txt 2>&1
+    [ -f $d/out/meta$N.json ] || continue
+    [ -d /verif/seeded/$P-$TAG$N ] && continue
+    [ -f build/probe/confirm_${P}_${TAG}${N}.txt ] && grep -q "CONFIRMED" build/probe/confirm_${P}_${TAG}${N}.txt && continue
+    tools/confirm_seed.sh $P $N $PFX $TAG > build/probe/confirm_${P}_${TAG}${N}.txt 2>&1
   done
 done
